@@ -92,6 +92,21 @@ def explicit(tier, seed):  # noqa: C901
                                       "result": {"big": L + 9}}] + tail, pat={"p": "crash_enum", "max_points": 12})
     # non-ASCII payload through a UTF-8 JSON serdes: characters within the limit, bytes over it
     yield case("utf8-chars-vs-bytes", [{"k": "child", "body": [{"k": "step", "val": 1}], "result": {"big": 140000, "ch": "é"}, "cfg": {"serdes": "utf8json"}}] + tail)
+    # 4-byte characters through a raw-UTF-8 serdes: 65 537 .. 87 381 of them are under the limit in characters and in 3-byte terms, over it in bytes
+    for nch, ch in ((66000, "\U0001F600"), (75000, "\U00020000"), (86000, "\U0001F600"), (60000, "\U0001F600"), (90000, "\U0001F600")):
+        yield case("utf8-4byte-%d" % nch, [{"k": "child", "body": [{"k": "step", "val": 1}], "result": {"big": nch, "ch": ch}, "cfg": {"serdes": "utf8json"}}] + tail)
+    # oversized batch whose items were recorded with a custom ITEM serdes: the rebuilt result must read them back with that serdes
+    for kind in ("par", "map"):
+        for iser in ("tagged", "ctxbound", "exotic"):
+            brs = [{"body": [{"k": "step", "val": j}], "result": {"big": L // 2 + 800}} for j in range(3)]
+            if iser == "exotic":
+                brs[0] = {"body": [{"k": "step", "val": 0}], "result": {"exotic": True}}
+                brs[1]["result"] = {"big": L - 900}
+            cfg = {"item_serdes": iser, "preset": "all_completed"}
+            if iser == "exotic":
+                cfg["serdes"] = "exotic"
+            node = {"k": "par", "branches": brs, "cfg": cfg} if kind == "par" else {"k": "map", "items": [0, 1, 2], "per_item": brs, "body": [], "cfg": cfg}
+            yield case("%s-batch-item-serdes-%s" % (kind, iser), [{"k": "try", "body": node, "catch": "*"}] + tail)
     yield case("utf8-small", [{"k": "child", "body": [{"k": "step", "val": 1}], "result": {"big": 1000, "ch": "é"}, "cfg": {"serdes": "utf8json"}}] + tail)
     # final result / error around the response limit
     for n in (R - 4, R - 3, R - 2, R - 1, R, R + 1, R + 1000):
@@ -114,7 +129,7 @@ SPEC = Spec(
     rule="result sizes limit-4 .. limit+50 and 2x limit for: a child context's own result (default config and custom summary generator), a "
     "single parallel/map branch's result, a batch result that exceeds the limit although every branch is within it (default config, "
     "explicit config, custom summary), an oversized batch containing a tolerated failed branch, an oversized batch that completed early (minimum reached, first successful, tolerance exceeded, with max_concurrency 1), a branch that is resumed in the same invocation after completing an oversized child context (timer, retry, condition), nested oversized contexts, a non-ASCII "
-    "payload through a UTF-8 JSON serdes (characters within the limit, bytes over it); each followed by waits and steps so the context is "
+    "payload through a UTF-8 JSON serdes (characters within the limit, bytes over it; 2-, 3- and 4-byte characters), oversized batches recorded with a custom item serdes; each followed by waits and steps so the context is "
     "replayed in at least two later invocations, with enumerated crash points after the summary record on selected scenarios; and final "
     "results/errors from limit-4 to limit+1000 around the 6 MB response limit. Oracle: every CONTEXT SUCCEED payload <= 256 KB measured "
     "in encoded bytes; ReplayChildren set iff the result exceeded the limit; no update for a summarised context or its descendants "
